@@ -155,6 +155,20 @@ func (r *Run) Violation(signature string, detail any) {
 	r.violations = append(r.violations, violation{signature, detail})
 }
 
+// Signatures returns every signature this run classified (unlisted violations and known-finding hits).
+func (r *Run) Signatures() []string {
+	r.mu.Lock()
+	defer r.mu.Unlock()
+	var out []string
+	for _, v := range r.violations {
+		out = append(out, v.Signature)
+	}
+	for k := range r.knownHits {
+		out = append(out, k)
+	}
+	return out
+}
+
 func (r *Run) Violations() int {
 	r.mu.Lock()
 	defer r.mu.Unlock()
